@@ -204,3 +204,37 @@ def unreb_raise(flag_path=None, delay=0.25):
     _mark(flag_path)
     time.sleep(delay)
     raise Unrebuildable(1, 2)
+
+
+# ---- C20: a real server that is killed exactly when it is about to send the runtime info to the client ------------------
+def suicidal_server(addr_file):
+    """runs a real RemoteServer in this process; pyworkers.remote.send_msg is wrapped (in this process only) so that the
+    process SIGKILLs itself when it is asked to send the 'ctrl: runtime info' frame"""
+    import signal
+    import multiprocessing.connection  # noqa: pyworkers.remote uses mp.connection without importing the submodule itself
+    import pyworkers.remote as R
+    from pyworkers.remote_server import RemoteServer
+    real_send = R.send_msg
+
+    def send_msg(sock, msg, comment=None):
+        if comment and str(comment).startswith('ctrl: runtime info'):
+            os.kill(os.getpid(), signal.SIGKILL)
+            time.sleep(60)
+        return real_send(sock, msg, comment)
+    R.send_msg = send_msg
+    srv = RemoteServer(('127.0.0.1', 0))
+    srv.open_socket()
+    with open(addr_file + '.tmp', 'w') as f:
+        f.write('%s %d %d' % (srv.addr[0], srv.addr[1], os.getpid()))
+    os.rename(addr_file + '.tmp', addr_file)
+    srv.run()
+
+
+LIFE_MODX = '''import multiprocessing, sys
+if multiprocessing.current_process().name != 'MainProcess':      # imported in a spawned child (remote backend, process-kind child)
+    sys.exit(0)
+
+
+def work(x=1):
+    return x + 1
+'''
